@@ -2,12 +2,14 @@ package tlsfaulteng
 
 import (
 	"fmt"
+
 	"hash/fnv"
 	"math/rand/v2"
 	"regexp"
 	"runtime"
 	"strings"
 	"time"
+	"verifharness/internal/core"
 )
 
 // splitmix64 is the position-dependent byte source of the payload streams.
@@ -156,4 +158,14 @@ func summarizeDump(d string) string {
 		fmt.Fprintf(&sb, "[%s: %s] ", g.State, strings.Join(fr, " < "))
 	}
 	return sb.String()
+}
+
+// panicKey is the witness key of a recovered panic: value class @ innermost zcrypto function
+// (core.Classify stops at the receiver parenthesis of methods, which would merge all methods of a package).
+func panicKey(pi *core.PanicInfo) string {
+	k := pi.Key
+	if i := strings.LastIndexByte(k, '@'); i >= 0 {
+		k = k[:i]
+	}
+	return k + "@" + firstZFrame(pi.Stack)
 }
